@@ -50,7 +50,29 @@ def _check_density(dm, got_keys_expected, k, problems, pairs, what):
             return
 
 
-def full_tomography(N, conn, mq, prover, with_density=True):
+def make_prep(N, variant):
+    """preparation-circuit OBJECT variants (the state is injected at the statistics level, the object's shape matters
+    to the circuit builders / fitters): plain, owning classical bits, carrying metadata, two quantum registers"""
+    from qiskit import QuantumCircuit, QuantumRegister
+    if variant == "cregs":
+        return QuantumCircuit(N, 2)
+    if variant == "metadata":
+        qc = QuantumCircuit(N)
+        qc.metadata = {"experiment": "tagged", "shots": 1}
+        return qc
+    if variant == "multireg" and N >= 2:
+        return QuantumCircuit(QuantumRegister(1, "a"), QuantumRegister(N - 1, "b"))
+    return QuantumCircuit(N)
+
+
+def _with_cregs(counts, ncl):
+    """qiskit formats counts of a circuit with an extra classical register as '<meas bits> <creg bits>'"""
+    if not ncl:
+        return counts
+    return {k + " " + "0" * ncl: v for k, v in counts.items()}
+
+
+def full_tomography(N, conn, mq, prover, with_density=True, variant="plain"):
     """real full_state_tomography_circuits + FullStateTomographyFitter on the symbolic state.  -> (problems, stats)"""
     from qiskit import QuantumCircuit
     tm = loader.sym("tomography")
@@ -58,7 +80,8 @@ def full_tomography(N, conn, mq, prover, with_density=True):
         loader.reset_state(mname)
     m = N if mq is None else len(mq)
     problems, pairs = [], []
-    prep = QuantumCircuit(N)
+    prep = make_prep(N, variant if mq is not None else "plain")
+    ncl = prep.num_clbits
     circs = tm.full_state_tomography_circuits(prep, conn, mq)
     if len(circs) != 2 ** m + 1:
         return ["expected %d circuits, got %d" % (2 ** m + 1, len(circs))], {}
@@ -66,7 +89,7 @@ def full_tomography(N, conn, mq, prover, with_density=True):
     for c in circs:
         if c.num_qubits != N:
             return ["measurement circuit has %d qubits, register has %d" % (c.num_qubits, N)], {}
-        counts.append(exact_counts(ztab.gates_of(c, allow_measure=True), N))
+        counts.append(_with_cregs(exact_counts(ztab.gates_of(c, allow_measure=True), N), ncl))
     mlist = list(range(N)) if mq is None else list(mq)
     labels_m = ["".join(t) for t in itertools.product("IXYZ", repeat=m)]
     exp_sub = {l: embed(l, mlist, N) for l in labels_m}
@@ -102,7 +125,7 @@ def full_tomography(N, conn, mq, prover, with_density=True):
     return problems, dict(pairs=len(pairs), circuits=len(circs))
 
 
-def stabilizer_measurement(N, conn, mq, R, S, ph, prover, with_density=True):
+def stabilizer_measurement(N, conn, mq, R, S, ph, prover, with_density=True, variant="plain"):
     """real stabilizer_measurement_circuit + StabilizerMeasurementFitter for the stabilizer (R,S,ph) on the list mq"""
     from qiskit import QuantumCircuit
     tm = loader.sym("tomography")
@@ -114,12 +137,12 @@ def stabilizer_measurement(N, conn, mq, R, S, ph, prover, with_density=True):
     from .. import symnp
     stab = st.Stabilizer((symnp.SymArray(np.array(R, dtype=np.int64), np.int8), symnp.SymArray(np.array(S, dtype=np.int64), np.int8),
                           symnp.SymArray(np.array(ph, dtype=np.int64), np.int8)))
-    prep = QuantumCircuit(N)
+    prep = make_prep(N, variant if mq is not None else "plain")
     try:
         circ = tm.stabilizer_measurement_circuit(prep, stab, conn, mq)
     except (AssertionError, ValueError, RuntimeError, TypeError) as e:
         return ["stabilizer_measurement_circuit raised %s: %s" % (type(e).__name__, str(e)[:80])], {}
-    counts = exact_counts(ztab.gates_of(circ, allow_measure=True), N)
+    counts = _with_cregs(exact_counts(ztab.gates_of(circ, allow_measure=True), N), prep.num_clbits)
     mlist = list(range(N)) if mq is None else list(mq)
     # unsigned group elements, as labels on the n listed qubits
     group = {}
